@@ -66,6 +66,11 @@ pub fn contract_largest_ttl(first_ttl: u8, outs: &[Out]) -> u8 {
 
 /// Materialise a shape as the probes of round `round_id`.
 pub fn build(shape: &Shape, round_id: usize, seq_base: u16) -> RoundRec {
+    build_with(shape, round_id, seq_base, &addr)
+}
+
+/// As `build`, with a caller supplied (selector, ttl) -> address mapping.
+pub fn build_with(shape: &Shape, round_id: usize, seq_base: u16, addr: &dyn Fn(u8, u8) -> IpAddr) -> RoundRec {
     let mut probes = vec![];
     let mut ttl = shape.first_ttl;
     let sent = vclock::from_ns(1_000_000_000 + round_id as u64 * 10_000_000_000);
